@@ -367,6 +367,7 @@ def main():
                 'and multi-byte atoms incl. & : < " trailing blanks, optional YAML fences, terminated by blank line+body / EOF with newline / EOF without newline, LF or CRLF; '
                 'queried through the 3 API families; followed by a history of 1-6 updates (existing and new keys) through one family with read-back on the same '
                 'engine and on a fresh one; complete HTML head checked for the values; distinct = distinct sources; all cases carry >= 1 key')
+    chk.rule = chk.rule + ' ; plus: a key written twice, closing dashes without an opening fence, blocks ended by a rule / ===== / fence / comment followed by key-like body lines, and texts that must not be read as metadata at all'
     chk.assumptions = ['value normalisation = whitespace runs (incl. line breaks) collapsed to one space, trimmed; no backslash before a line break in generated values']
     chunk = max(10, n // 64)
     chk.run_jobs(work, [(chk.seed, lo, min(n, lo + chunk)) for lo in range(0, n, chunk)])
